@@ -4,6 +4,9 @@ import PyElf.Spec.ElfImage
 import PyElf.Spec.Contents
 import PyElf.Model.ElfFile
 import PyElf.Model.Contents
+import PyElf.Model.ContentsFile
+import PyElf.Spec.ContentsImage
+import PyElf.Spec.ContentsMacro
 import PyElf.Model.Env
 open Lean
 namespace PyElf.Driver.C02
@@ -66,98 +69,177 @@ def nobitsCap : Nat := 2 ^ 20
 
 /-! ### the model's observation of an image -/
 
+/-- Every accessor is answered by the whole-file model functions of Model/ContentsFile.lean (the ones
+    the `file_*` theorems of Props/C02.lean speak about): `ELFFile(BytesIO(data))` → `get_section(i)` /
+    `get_segment(j)` → accessor.  The harness builds the lists of all sections and segments first, so a
+    section or segment that cannot be made fails the whole observation: that is what the first four
+    lines mirror. -/
 def modelObserve (zl : Bytes → Nat → R Bytes) (data : Bytes) (strq addrq : List (Nat × Nat)) : R Json := do
   let some F := genFlags | throw .notImplemented
   let f ← openElf elfEnv elfStructsFor machineClassOf data
   let secs ← iterSections elfEnv f.S data f.header f.shstr
-  let secJs ← secs.mapM fun (_, _, sh) => do
-    let o ← C02.sectionNew elfEnv f.S F data sh
+  let _ ← secs.mapM fun (_, _, sh) => C02.sectionNew elfEnv f.S F data sh
+  -- `fileSectionMeta i` / `fileSectionData i` are `fileSection i` followed by the accessor: one opening serves both
+  let secJs ← (List.range secs.length).mapM fun i => do
+    let (f', _, sh, o) ← C02.fileSection elfEnv elfStructsFor machineClassOf F data i
     -- a zero block between the cap and 2^63 bytes is a MemoryError in Python (not modelled): never materialise it
     let tooBig := match sh.getField "sh_type", o.dsize with
       | .ok (.str "SHT_NOBITS"), .int n => decide ((nobitsCap : Int) < n) && decide (n < 2 ^ 63)
       | _, _ => false
-    let dataJ := if tooBig then Json.mkObj [("err", "memoryError")] else resJson bytesJ (C02.sectionData zl f.S data o)
+    let dataJ := if tooBig then Json.mkObj [("err", "memoryError")]
+      else resJson bytesJ (C02.sectionData zl f'.S f'.data o)
     return Json.mkObj [("compressed", Json.bool (o.compressed != 0)), ("size", o.dsize.toJson),
                        ("align", o.dalign.toJson), ("data", dataJ)]
-  let strJs ← strq.mapM fun (i, off) => do
+  -- every fifth lookup through the whole-file function `fileGetString`, the rest on the section
+  -- headers already at hand (a lookup on a section that is not a string table is set aside by the harness)
+  let strJs ← ((List.range strq.length).zip strq).mapM fun (k, i, off) => do
     match secs[i]? with
-    | some (_, _, sh) => return resJson bytesJ (getString data sh off)
+    | some (_, _, sh) =>
+      if k % 5 == 0 then return resJson bytesJ (C02.fileGetString elfEnv elfStructsFor machineClassOf data i off)
+      else return resJson bytesJ (getString data sh off)
     | none => throw .indexError
   let segs ← iterSegments elfEnv f.S data f.header f.shstr
-  let segJs := segs.map fun (kind, ph) =>
-    Json.mkObj [("data", resJson bytesJ (C02.segmentData data ph)),
-                ("interp", if kind == "InterpSegment" then resJson bytesJ (C02.getInterpName elfEnv data ph) else Json.null)]
-  let addrJs := addrq.map fun (s, n) =>
-    resJson (fun (l : List Int) => Json.arr (l.map jI).toArray) (C02.addressOffsets elfEnv f s n)
-  let inseg := segs.map fun (_, ph) =>
-    Json.arr (secs.map fun (_, _, sh) => resJson Json.bool (C02.sectionInSegment F ph sh)).toArray
+  -- likewise `fileSegmentData j` / `fileInterpName j` are `fileSegment j` followed by the accessor
+  let segJs ← (List.range segs.length).mapM fun j => do
+    let (f', kind, ph) ← C02.fileSegment elfEnv elfStructsFor machineClassOf data j
+    return Json.mkObj [("data", resJson bytesJ (C02.segmentData f'.data ph)),
+                ("interp", if kind == "InterpSegment" then resJson bytesJ (C02.getInterpName elfEnv f'.data ph)
+                           else Json.null)]
+  -- `fileAddressOffsets` is `openElf` followed by `addressOffsets`: the first four queries re-open, the rest reuse `f`
+  let addrJs := ((List.range addrq.length).zip addrq).map fun (k, s, n) =>
+    resJson (fun (l : List Int) => Json.arr (l.map jI).toArray)
+      (if k < 4 then C02.fileAddressOffsets elfEnv elfStructsFor machineClassOf data s n
+       else C02.addressOffsets elfEnv f s n)
+  -- all pairs: `section_in_segment` on the objects already made; every seventh pair (and the diagonal)
+  -- through the whole-file function `fileSectionInSegment` (re-opening the file for each pair of a
+  -- 16 × 11 matrix is what the quick tier cannot afford)
+  let inseg := ((List.range segs.length).zip segs).map fun (j, _, ph) =>
+    Json.arr (((List.range secs.length).zip secs).map fun (i, _, _, sh) =>
+      if (i + 3 * j) % 7 == 0 || i == j then
+        resJson Json.bool (C02.fileSectionInSegment elfEnv elfStructsFor machineClassOf F data j i)
+      else resJson Json.bool (C02.sectionInSegment F ph sh)).toArray
   return Json.mkObj [("sections", Json.arr secJs.toArray), ("strings", Json.arr strJs.toArray),
                      ("segments", Json.arr segJs.toArray), ("addr", Json.arr addrJs.toArray),
                      ("inseg", Json.arr inseg.toArray)]
 
 /-! ### the Spec's observation of a description -/
 
-def secOf (s : SecDesc) : Sec :=
-  { shType := getNatD s.hdr "sh_type", flags := getNatD s.hdr "sh_flags", addr := getNatD s.hdr "sh_addr",
-    offset := getNatD s.hdr "sh_offset", size := getNatD s.hdr "sh_size", addralign := getNatD s.hdr "sh_addralign" }
-
-def segOf (p : Fields) : Seg :=
-  { ptype := getNatD p "p_type", offset := getNatD p "p_offset", vaddr := getNatD p "p_vaddr",
-    filesz := getNatD p "p_filesz", memsz := getNatD p "p_memsz" }
+open PyElf.Spec.C02 (secOf segOf)
 
 def optData : Option Bytes → Json
   | some b => Json.mkObj [("ok", bytesJ b)]
   | none => Json.mkObj [("reject", Json.bool true)]
 
-def specObserve (inflate : Bytes → Option Bytes) (d : ElfDesc) (chdrs : List (Option Chdr)) (img : Bytes)
-    (strq addrq : List (Nat × Nat)) : Json :=
+def optJ {α} (f : α → Json) : Option α → Json
+  | some x => f x
+  | none => Json.null
+
+/-- a description-derived expectation, abbreviated to `"="` when it is the image-derived one next to it
+    (the harness expands it; saves encoding large bodies twice) -/
+def sameOr {α} [BEq α] (f : α → Json) (ref : Option α) : Option α → Json
+  | some x => if ref == some x then Json.str "=" else f x
+  | none => Json.null
+
+/-- what the DESCRIPTION assigns to a section (Props/C02 `file_data_raw` / `_nobits` / `_compressed`):
+    `none` where those theorems' hypotheses fail -/
+def descData (inflate : Bytes → Option Bytes) (cls : Nat) (le : Bool) (s : SecDesc) (ch : Option Chdr) (zb : Bytes) :
+    Option (Option Bytes) :=
+  let sc := secOf s
+  let body := bodyOf s
+  if sc.nobits && sc.compressed then none
+  else if sc.nobits then
+    if sc.size ≤ nobitsCap then some (some (List.replicate sc.size 0)) else none
+  else if sc.compressed then
+    match ch with
+    | some c =>
+      if c.fits cls && body == C02.encChdr cls le c ++ zb && sc.size == body.length &&
+          decide (sc.offset + sc.size < 2 ^ 63) && decide (c.chSize + 1 < 2 ^ 63) then
+        some (C02.inflatedOf inflate c zb)
+      else none
+    | none => none
+  else if decide (sc.size ≤ body.length) && decide (sc.offset + sc.size < 2 ^ 63) then
+    some (some (body.take sc.size))
+  else none
+
+/-- the error side for a section not flagged compressed (Props/C02 `file_data_unreachable`) -/
+def descErr (s : SecDesc) : Option String :=
+  let sc := secOf s
+  if sc.compressed then none
+  else if !sc.nobits && decide (2 ^ 63 ≤ sc.offset) then some "overflowError"
+  else if !sc.nobits && decide (2 ^ 63 ≤ sc.size) then some "overflowError"
+  else if sc.nobits && decide (2 ^ 63 ≤ sc.size) then some "overflowError"
+  else none
+
+/-- the first section body of the description that wholly holds the file extent `[off, off + n)` -/
+def holderOf (d : ElfDesc) (off n : Nat) : Option (SecDesc × Nat) :=
+  (d.sections.find? fun s =>
+    s.body.isSome && decide ((secOf s).offset ≤ off) && decide (off - (secOf s).offset + n ≤ (bodyOf s).length)).map
+    fun s => (s, off - (secOf s).offset)
+
+def specObserve (inflate : Bytes → Option Bytes) (d : ElfDesc) (chdrs : List (Option Chdr)) (zbodies : List Bytes)
+    (img : Bytes) (strq addrq : List (Nat × Nat)) : Json :=
   let secs := d.sections.map secOf
   let segs := d.segments.map segOf
-  let secJs := (secs.zip chdrs).map fun (s, ch) =>
+  let secJs := (d.sections.zip (chdrs.zip zbodies)).map fun (sd, ch, zb) =>
+    let s := secOf sd
     let wf := !(s.nobits && s.compressed) && (!s.compressed || (ch.isSome && decide (C02.chdrSize d.cls ≤ s.size))) &&
       decide (s.offset + s.size < 2 ^ 63) && (!s.nobits || decide (s.size ≤ nobitsCap)) &&
       decide (C02.logicalSize s ch + 1 < 2 ^ 63)
+    -- a zero block beyond the cap is never materialised (such an item is not `wf` and is set aside)
+    let dat := if s.nobits && decide (nobitsCap < s.size) then none else some (C02.dataOf inflate d.cls img s ch)
     Json.mkObj [("compressed", Json.bool s.compressed), ("size", jN (C02.logicalSize s ch)),
-                ("align", jN (C02.logicalAlign s ch)), ("data", optData (C02.dataOf inflate d.cls img s ch)),
-                ("wf", Json.bool wf)]
+                ("align", jN (C02.logicalAlign s ch)), ("data", optJ optData dat), ("wf", Json.bool wf),
+                ("desc", sameOr optData dat (descData inflate d.cls d.le sd ch zb)), ("err", optJ Json.str (descErr sd))]
   let strJs := strq.map fun (i, off) =>
     match d.sections[i]? with
     | some s =>
       let sc := secOf s
       let tbl := C02.extent img sc.offset sc.size
+      -- Props/C02 `file_get_string_exact` (a string of the table the description stores) and `get_string_unreachable`
+      let isTab := sc.shType == 3
+      let desc := if isTab && decide (sc.offset + off < 2 ^ 63) then C02.stringAt (C02.tableOf s) off else none
+      let err := if isTab && decide (2 ^ 63 ≤ sc.offset + off) then some "overflowError" else none
+      let extra := [("desc", sameOr bytesJ (C02.stringAt tbl off) desc), ("err", optJ Json.str err)]
       match C02.stringAt tbl off with
-      | some str => Json.mkObj [("ok", bytesJ str), ("wf", Json.bool (decide (sc.offset + off < 2 ^ 63)))]
-      | none => Json.mkObj [("wf", Json.bool false)]
+      | some str => Json.mkObj ([("ok", bytesJ str), ("wf", Json.bool (decide (sc.offset + off < 2 ^ 63)))] ++ extra)
+      | none => Json.mkObj ([("wf", Json.bool false)] ++ extra)
     | none => Json.mkObj [("wf", Json.bool false)]
   let segJs := segs.map fun g =>
-    Json.mkObj [("data", optData (some (C02.segData img g))),
-                ("wf", Json.bool (decide (g.offset < 2 ^ 63) && decide (g.filesz < 2 ^ 63))),
-                ("interp", if g.ptype == C02.PT_INTERP then
+    let reach := decide (g.offset < 2 ^ 63) && decide (g.filesz < 2 ^ 63)
+    -- Props/C02 `file_segment_data_stored` / `_unreachable`, `file_interp_name`, `interp_name_unreachable` / `_unterminated`
+    let desc := if reach then (holderOf d g.offset g.filesz).map fun (s, k) => C02.segBytes g s k else none
+    let err := if reach then none else some "overflowError"
+    let isInterp := g.ptype == C02.PT_INTERP
+    let idesc := if decide (g.offset < 2 ^ 63) then
+        (holderOf d g.offset 0).bind fun (s, k) => firstNul ((bodyOf s).drop k)
+      else none
+    let ierr := if decide (2 ^ 63 ≤ g.offset) then some "elfParseError"
+      else if (C02.interpName img g).isNone then some "elfParseError" else none
+    let sdat := C02.segData img g
+    Json.mkObj [("data", optData (some sdat)),
+                ("wf", Json.bool reach), ("desc", sameOr bytesJ (some sdat) desc), ("err", optJ Json.str err),
+                ("interp", if isInterp then
                     match C02.interpName img g with
-                    | some s => Json.mkObj [("ok", bytesJ s), ("wf", Json.bool (decide (g.offset < 2 ^ 63)))]
-                    | none => Json.mkObj [("wf", Json.bool false)]
+                    | some s => Json.mkObj [("ok", bytesJ s), ("wf", Json.bool (decide (g.offset < 2 ^ 63))),
+                                            ("desc", sameOr bytesJ (some s) idesc), ("err", optJ Json.str ierr)]
+                    | none => Json.mkObj [("wf", Json.bool false), ("desc", optJ bytesJ idesc), ("err", optJ Json.str ierr)]
                   else Json.null)]
   let addrJs := addrq.map fun (s, n) =>
     Json.mkObj [("ok", Json.arr ((C02.addrOffsets segs s n).map jN).toArray)]
   let inseg := segs.map fun g =>
     Json.arr (secs.map fun s => Json.mkObj [("ok", Json.bool (C02.inSegmentStrict g s))]).toArray
+  -- the Spec predicate against binutils' macro (a view of the Spec, Props/C02 `in_segment_eq_C_macro_iff`):
+  -- [macro64, plainCase, fits64, macroFull64, clausesInert, tbssSpecial, nothing wraps]
   let macroJs := segs.map fun g =>
-    Json.arr (secs.map fun s => Json.arr #[Json.bool (C02.macro64 g s), Json.bool (C02.plainCase g s),
-                                           Json.bool (C02.fits64 g s)]).toArray
+    Json.arr (secs.map fun s =>
+      let nowrap := (decide (s.offset < g.offset) || decide (s.offset - g.offset + s.size < 2 ^ 64)) &&
+        (decide (s.addr < g.vaddr) || decide (s.addr - g.vaddr + s.size < 2 ^ 64))
+      Json.arr #[Json.bool (C02.macro64 g s), Json.bool (C02.plainCase g s), Json.bool (C02.fits64 g s),
+                 Json.bool (C02.macroFull64 g s), Json.bool (C02.clausesInert g s), Json.bool (C02.tbssSpecial g s),
+                 Json.bool nowrap]).toArray
   Json.mkObj [("sections", Json.arr secJs.toArray), ("strings", Json.arr strJs.toArray),
               ("segments", Json.arr segJs.toArray), ("addr", Json.arr addrJs.toArray),
               ("inseg", Json.arr inseg.toArray), ("macro", Json.arr macroJs.toArray)]
-
-/-- the description with SHF_COMPRESSED cleared: C01's well-formedness sets compressed sections
-    aside as C02's subject; everything else it demands (openable file, names, links) is needed here too -/
-def clearCompressed (d : ElfDesc) : ElfDesc :=
-  { d with sections := d.sections.map fun s =>
-      { s with hdr := s.hdr.map fun (k, v) =>
-          if k == "sh_flags" then
-            match v with
-            | .int n => (k, .int (n.toNat &&& (2 ^ 64 - 1 - 0x800) : Nat))
-            | _ => (k, v)
-          else (k, v) } }
 
 def chdrOfJson (j : Json) : Except String Chdr := do
   pure ⟨← jNat j "ch_type", ← jNat j "ch_size", ← jNat j "ch_addralign"⟩
@@ -197,9 +279,11 @@ def handle (req : Json) : Except String Json := do
       let layoutOk := d.sections.all fun s => match s.body with
         | some b => b.isEmpty || readN bytes (getNatD s.hdr "sh_offset") b.length == b
         | none => true
-      let wf := chOk && layoutOk && (clearCompressed d).wf elfEnv
+      -- `wfZ` is the hypothesis of the whole-file theorems (C01 with SHF_COMPRESSED sections admitted)
+      -- with `assemble` and `observe` defined: exactly `Carries elfEnv d bytes` (Props/C02 `carries_assembled`)
+      let wf := chOk && layoutOk && d.wfZ elfEnv && (d.observe elfEnv).toOption.isSome
       return Json.mkObj [("wf", Json.bool wf), ("bytes", jHexOf bytes),
-                         ("expect", specObserve inflate d chdrs bytes strq addrq),
+                         ("expect", specObserve inflate d chdrs zbodies bytes strq addrq),
                          ("model", resJson id (modelObserve zl bytes strq addrq))]
   | "raw" =>
     let data ← jHex req "hex"
